@@ -547,6 +547,10 @@ func TestCheck(t *testing.T) {
 			kind = "instant"
 		}
 		ft := feature(c.Query)
+		if strings.Contains(ft, "without") && strings.Contains(ft, "multi-name-selector") {
+			// one root cause, whatever else the program contains: a "without" scope over series of several metric names
+			ft = "without-grouping-over-several-metric-names"
+		}
 		if got.Err != "" {
 			r.Violation("sharded-evaluation-fails:"+ft, fmt.Sprintf("%s query %q: unsharded succeeds, sharded: %s", kind, c.Query, got.Err), c)
 			return
@@ -572,7 +576,7 @@ func TestCheck(t *testing.T) {
 			} else if gv == nil {
 				what = "series-missing"
 			}
-			r.Violation("sharded-result-"+what+":"+ft, fmt.Sprintf("%s query %q (sharded by=%v %v into %d): series %s unsharded %v, sharded %v", kind, c.Query, by, lbls, c.Shards, n, rv, gv), c)
+			r.Violation("sharded-result-differs:"+ft, what+": "+fmt.Sprintf("%s query %q (sharded by=%v %v into %d): series %s unsharded %v, sharded %v", kind, c.Query, by, lbls, c.Shards, n, rv, gv), c)
 			return
 		}
 	})
